@@ -25,6 +25,11 @@ CHECKS = {
             'comments/whitespace, continuations) and stdin delivery through stone.cli.main',
             'Held on the executions produced: canonical Api dump and every output byte (or raised exception) '
             'equal to the reference layout for every variant explored.', '4 C11'),
+    'C12': ('runtime monitoring: byte-level differential observation of all 14 backend configurations across fresh '
+            'interpreters that differ in hash seed, backend order, output directory, process history and '
+            'whitelist path',
+            'Held on the executions produced: sha256 of every output file (or the raised exception) identical '
+            'across all process variants explored.', '4 C12'),
 }
 
 PENDING = {}
